@@ -4,17 +4,9 @@ From MLgen Require Import Src_query.
 Import ListNotations.
 Open Scope R_scope.
 
-(* distance of one pair, read off the generated (translated) pair_distance *)
-Definition d_src (L : Rm) (x y : Rv) : R := nth 0 (@Src_query.pair_distance ROps L [[x; y]]) 0.
-
-Arguments d_src : simpl never.
-
-Lemma d_src_dist L x y : d_src L x y = distR L x y.
-Proof. unfold d_src. rewrite src_pair_distance_eq. reflexivity. Qed.
-
-Lemma C01_batch (L : Rm) P :
-  @Src_query.pair_distance ROps L P = map (fun tp => d_src L (nth 0 tp []) (nth 1 tp [])) P.
-Proof. rewrite src_pair_distance_eq. apply map_ext. intro tp. rewrite d_src_dist. reflexivity. Qed.
+Lemma src_metric_fun_eq {O : Ops} (L : list (list (T O))) u v sq :
+  Src_query.metric_fun L u v sq = Mahalanobis.metric_fun L u v sq.
+Proof. unfold Src_query.metric_fun, Mahalanobis.metric_fun. destruct sq; reflexivity. Qed.
 
 Lemma C01_proof :
   forall (k d : nat) (L : Rm), wfmR k d L ->
